@@ -202,7 +202,9 @@ class Tags:
                 # then only known through remote.origin.url
                 "no_upstream": rng.random() < 0.3,
                 # HEAD detached at the tip of the chosen branch (what CI systems check out)
-                "detached": rng.random() < 0.2}
+                "detached": rng.random() < 0.2,
+                # another branch was merged into the checked-out one: its tags are reachable through the second parent
+                "merge": rng.choice(branches) if (len(branches) > 1 and rng.random() < 0.3) else None}
 
     # ---- world building ---------------------------------------------------------------------------
     def build_fake(self, case, d):
@@ -234,6 +236,11 @@ class Tags:
         if case.get("moved_remote_tag"):
             repo.moved_remote_tags = ["floating"]
         repo.switch(main if case["head"] == "main" else case["head"])
+        if case.get("merge") and case["merge"] != case["head"]:
+            other = main if case["merge"] == "main" else case["merge"]
+            cid = repo.new_commit("merge " + case["merge"], [])
+            repo.parents[cid].append(repo.branches[other])
+            repo.commit_log = []
         if case.get("detached") and pers == "git":
             repo.detached = True
         return repo
@@ -263,6 +270,8 @@ class Tags:
             rg.git("push", "-q", "origin", "--tags")
             rg.git("tag", "-f", "floating", chains["main"][1], cwd=rg.remote_path)
         rg.git("checkout", "-q", case["head"])
+        if case.get("merge") and case["merge"] != case["head"]:
+            rg.git("merge", "-q", "--no-ff", "-m", "merge " + case["merge"], case["merge"])
         if case.get("detached"):
             rg.git("checkout", "-q", "--detach")
         rg.all_tags = set(rg.tags())
@@ -327,6 +336,8 @@ class Tags:
             ctx.probe("branch_without_upstream")
         if case.get("detached"):
             ctx.probe("detached_head")
+        if case.get("merge") and case["merge"] != case["head"]:
+            ctx.probe("other_branch_merged_in")
         ctx.probe("personality_" + case.get("pers", "git"))
         two_digit = gp.has_two_digit_year(tree)
         for op in case["ops"]:
